@@ -24,7 +24,8 @@ RULE = ("(i) the finite header space is enumerated: delimited streams with an em
         "reader with 1-2 bytes left in its buffer; gzip over a dribbling file) - both modes must be detected by get_options_and_frames and parse to "
         "the same statements. rdflib Graph.serialize asked for each mode through options= / stream= / an explicit flow object, and with "
         "the options object arriving as copy.copy / deepcopy / pickle round trip / dataclasses.replace of the caller's: the bytes "
-        "must be classified as the mode asked for. Non-trivial: headers containing 0x0A in byte 1 or 2; distinct by header bytes / stream bytes.")
+        "must be classified as the mode asked for; and a default Graph.serialize(format='jelly') (no options) after the same process wrote a "
+        "non-delimited file through an adjusted guess_options() / default options object is still the delimited stream it is on its own. Non-trivial: headers containing 0x0A in byte 1 or 2; distinct by header bytes / stream bytes.")
 ASSUMPTIONS = [
     "domain as stated by the property: the first frame is empty or starts with a row (no metadata-only first frame)",
     "non-delimited streams start with their options row (a valid stream)",
@@ -474,6 +475,56 @@ def rdflib_writer_modes(ctx, rng):
             ctx.violation({"clause": "paired-parse-differs", "summary": f"rdflib {entry}: the two modes do not parse to the same statements"})
 
 
+def default_write_after_history(ctx, rng):
+    """Graph.serialize(format='jelly') with NO options (the documented default: a delimited stream) after the same process
+    wrote other files in other ways - in particular a non-delimited one through an options object obtained from
+    guess_options() / a default SerializerOptions() and then adjusted by the caller.  The default write must stay what it is
+    on its own: delimited, classified as such, and parsing to the graph."""
+    import dataclasses
+    import rdflib
+    from pyjelly.integrations.rdflib import serialize as rser
+    from pyjelly.serialize.streams import SerializerOptions
+
+    stmts = gen.statements(rng, rng.randint(1, 4), 3, "rdf11")
+    g = pj.rdflib_store_of(stmts, dataset=False)
+    history = rng.choice(["guess_options-adjusted", "default-options-adjusted", "non-delimited-first"])
+    try:
+        if history == "guess_options-adjusted":
+            o = rser.guess_options(g)
+            o.params = dataclasses.replace(o.params, delimited=False)
+        elif history == "default-options-adjusted":
+            o = SerializerOptions(logical_type=1)
+            o.params = dataclasses.replace(o.params, delimited=False, generalized_statements=False, rdf_star=False)
+        else:
+            o = pj.make_options({"physical": 1, "logical": 1, "delimited": False, "generalized": False, "rdf_star": False})
+        g.serialize(io.BytesIO(), format="jelly", options=o)
+    except Exception as ex:  # noqa: BLE001
+        ctx.observe(f"default-write-history-raised:{type(ex).__name__}")
+    out = io.BytesIO()
+    g.serialize(out, format="jelly")
+    data = out.getvalue()
+    ctx.observe("default-writes-after-a-history")
+    ctx.observe(f"default-write-history:{history}")
+    problem = None
+    if not delimited_jelly_hint(data[:3]):
+        problem = f"is classified as non-delimited (header {data[:3].hex()})"
+    else:
+        try:
+            wire.dec_stream(data, True)
+            got = {repr(e) for e in T.norm_events(pj.parse("generic", "flat", data))}
+            if got != {repr(e) for e in T.norm_events([("stmt", s) for s in stmts])}:
+                problem = "parses to other statements"
+        except Exception as ex:  # noqa: BLE001
+            problem = f"does not parse as the delimited stream it should be: {type(ex).__name__}"
+    if problem:
+        ctx.violation({"clause": "misclassified", "mode": "delimited", "header": data[:3].hex(), "kind": "default-write-after-history",
+                       "history": history, "stmts": T.to_json(stmts),
+                       "summary": f"Graph.serialize(format='jelly') with no options, after a non-delimited write through "
+                                  f"{history}: the output {problem}"})
+    ctx.case(("default-after", history, data[:3].hex(), len(stmts)), True,
+             sample={"kind": "default write after a history", "history": history, "header": data[:3].hex()})
+
+
 def run_shard(ctx):
     rng = ctx.rng("hdr")
     for mode, hdr, desc in headers(ctx.tier, ctx.shard, ctx.nshards, rng):
@@ -505,6 +556,7 @@ def run_shard(ctx):
     while not ctx.out_of_time() and i < (6 if ctx.tier == "quick" else 60):
         pyjelly_pairs(ctx, ctx.rng("pair", i))
         rdflib_writer_modes(ctx, ctx.rng("rdflib-modes", i))
+        default_write_after_history(ctx, ctx.rng("default-after", i))
         i += 1
 
 
